@@ -69,6 +69,8 @@ def _attr(name, tv):
 
 def _node(n):
     nd = h.make_node(n["op"], list(n["ins"]), list(n["outs"]), domain=n.get("dom", ""), name=n.get("name", ""))
+    if n.get("overload"):
+        nd.overload = n["overload"]          # IR >= 10: call of one overload of a function
     for k in n.get("attrs", {}):
         nd.attribute.append(_attr(k, n["attrs"][k]))
     return nd
@@ -99,6 +101,8 @@ def build(spec) -> onnx.ModelProto:
         fp = h.make_function(f["dom"], f["name"], list(f["ins"]), list(f["outs"]), [_node(n) for n in f["nodes"]],
                              [h.make_opsetid(d, v) for d, v in f.get("opsets", [["", spec.get("opset", 18)], ["local", 1]])],
                              attributes=list(f.get("attrs", [])), attribute_protos=aps)
+        if f.get("overload"):
+            fp.overload = f["overload"]
         fns.append(fp)
         doms.add(f["dom"])
 
@@ -109,9 +113,13 @@ def build(spec) -> onnx.ModelProto:
                 if tv[0] == "g":
                     walk(tv[1]["nodes"])
     walk(spec["nodes"])
-    for f in spec.get("functions", []):
-        walk(f["nodes"])
-    ops = [h.make_opsetid("", spec.get("opset", 18))] + [h.make_opsetid(d, 1) for d in sorted(doms) if d != ""]
+    if not spec.get("function_domains_not_imported"):
+        for f in spec.get("functions", []):
+            walk(f["nodes"])
+    # (spec["function_domains_not_imported"]: operator domains used only inside function bodies are imported by those
+    #  functions only — f["opsets"] — not by the model)
+    ver = dict(spec.get("domain_versions", {}))
+    ops = [h.make_opsetid("", spec.get("opset", 18))] + [h.make_opsetid(d, ver.get(d, 1)) for d in sorted(doms) if d != ""]
     ops += [h.make_opsetid(d, v) for d, v in spec.get("extra_opsets", []) if d not in doms]      # imports nothing uses
     return h.make_model(g, opset_imports=ops, functions=fns, ir_version=spec.get("ir_version", 9))
 
